@@ -114,6 +114,37 @@ def strata(tier):  # noqa: F811
             yield {"rules": rules, "doc": doc, "perms": _perms(rng, len(rules)), "w4": e["name"]}
 
 
+def _long_path_cases(tier):
+    """failing nodes whose concrete path is very long to write: siblings that differ only in the middle of a long key,
+    deep chains of long keys, non-str keys next to them"""
+    dt = {"c": "leaf", "kind": "value", "pre": "dtype", "fn": "equal_to", "args": [{"$type": "str"}]}
+    lt = {"c": "leaf", "kind": "value", "pre": None, "fn": "less_than", "args": [0]}
+    for n in (120, 350, 1500):
+        k1, k2 = "k" * n + "A" + "k" * n, "k" * n + "B" + "k" * n
+        doc = {"top": {k1: 1, k2: 2, "ok": "s", 3: 4}, k1: {k2: {k1: [1, 2, "s"]}}}
+        yield {"rules": [{"path": PC.mkpath([{"p": "prim", "v": "top"}, {"p": "map"}]), "cond": dt}], "doc": doc, "perms": [[0]]}
+        yield {"rules": [{"path": PC.mkpath([{"p": "prim", "v": k1}, {"p": "prim", "v": k2}, {"p": "prim", "v": k1}, {"p": "list"}]), "cond": lt},
+                         {"path": PC.mkpath([{"p": "mol"}, {"p": "mol"}]), "cond": dt}], "doc": doc, "perms": [[0, 1], [1, 0]]}
+    chain = doc = {}
+    for i in range(40):
+        chain["segment-%02d-" % i + "x" * 30] = nxt = {}
+        chain["leaf%d" % i] = i
+        chain = nxt
+    chain["end"] = [1, "s", 2]
+    yield {"rules": [{"path": PC.mkpath([{"p": "mol"}] * d), "cond": dt} for d in (1, 5, 20, 40, 41)], "doc": doc,
+           "perms": [[0, 1, 2, 3, 4], [4, 3, 2, 1, 0]]}
+    big = {"a": list(range(6000)), "b": "y" * 30000, "c": {"k%d" % i: [i] * 5 for i in range(1500)}}
+    yield {"rules": [{"path": PC.mkpath([{"p": "map"}]), "cond": lt}], "doc": big, "perms": [[0]]}
+
+
+_strata1 = strata
+
+
+def strata(tier):  # noqa: F811
+    yield from _strata1(tier)
+    yield from _long_path_cases(tier)
+
+
 def budget(tier):
     return 8000 if tier == "quick" else 150000
 
